@@ -242,12 +242,12 @@ class G:
             raise Bail("too large")
         return e
 
-    def scalar_cond(self, env):
-        """A BOOL expression with exactly one element."""
+    def scalar_cond(self, env, rank0=False):
+        """A BOOL expression with exactly one element (rank 0 when rank0: the Loop spec wants a scalar condition)."""
         r = self.rng
         n, v = self.pick(env, lambda a: a.dtype.kind in "fi" and a.size > 0)
         dtn = tyname(v.a)
-        form = r.choice(["sum_gt", "sum_lt", "max_ge", "scalar"])
+        form = r.choice(["sum_gt", "max_ge", "scalar"] if rank0 else ["sum_gt", "sum_lt", "max_ge", "scalar"])
         thr = self.lit(dtn)
         if form == "scalar":
             try:
@@ -462,7 +462,7 @@ class G:
             self.feat.add("nested_control_flow")
         if r.random() < 0.35:
             cb = self.fresh("brk")
-            body += self.emit(f"{cb} = {self.scalar_cond(e2)}", e2, indent + 1)
+            body += self.emit(f"{cb} = {self.scalar_cond(e2, rank0=True)}", e2, indent + 1)
             body.append("    " * (indent + 1) + f"if {cb}:")
             body.append("    " * (indent + 2) + "break")
             self.feat.add("for_with_break")
@@ -481,7 +481,7 @@ class G:
         out = self.emit(f"{cnt} = op.Constant(value_int=0)", env, indent)
         extra = ""
         if r.random() < 0.5:
-            extra = f" & {self.scalar_cond(env)}"
+            extra = f" & {self.scalar_cond(env, rank0=True)}"
         out += self.emit(f"{cond} = ({cnt} < {limit}){extra}", env, indent)
         if env[cond].a.size != 1:
             raise Bail("cond shape")
@@ -490,7 +490,7 @@ class G:
         for w in carried:
             body += self.st_assign_like(e2, indent + 1, target=w)
         body += self.emit(f"{cnt} = {cnt} + 1", e2, indent + 1)
-        extra2 = f" & {self.scalar_cond(e2)}" if extra else ""
+        extra2 = f" & {self.scalar_cond(e2, rank0=True)}" if extra else ""
         body += self.emit(f"{cond} = ({cnt} < {limit}){extra2}", e2, indent + 1)
         if e2[cond].a.shape != env[cond].a.shape:
             raise Bail("cond shape drift")
